@@ -1,6 +1,7 @@
 package gen
 
 import (
+	"encoding/json"
 	"fmt"
 	"math/rand/v2"
 	"strings"
@@ -143,7 +144,33 @@ func NewDynUniverse(r *rand.Rand) *DynUniverse {
 	u.Final = Pick(r, forms)
 	fin := map[string]any{"$dynamicRef": u.Final}
 	var shape []string
+	// decoy: a further resource that declares the dynamic anchor and accepts only its own marker. Hops may first send the
+	// instance INTO the decoy through a keyword that carries on after a failed subschema (anyOf, not, if, contains): the
+	// decoy is entered and left again before the real path continues, and must leave nothing in the dynamic scope.
+	decoy := !remote && r.IntN(3) == 0
+	decoyRef := map[string]any{"$ref": "http://h/decoy.json"}
 	wrapHop := func(hop map[string]any, route *[]string) map[string]any {
+		if decoy && r.IntN(2) == 0 {
+			switch r.IntN(5) {
+			case 0:
+				shape = append(shape, "decoy-anyOf")
+				return map[string]any{"anyOf": []any{decoyRef, hop}}
+			case 1:
+				shape = append(shape, "decoy-not")
+				return map[string]any{"not": decoyRef, "allOf": []any{hop}}
+			case 2:
+				shape = append(shape, "decoy-if")
+				return map[string]any{"if": decoyRef, "then": hop, "else": hop}
+			case 3:
+				*route = append(*route, "i")
+				shape = append(shape, "decoy-contains-unevaluatedItems")
+				return map[string]any{"contains": decoyRef, "minContains": json.Number("0"), "unevaluatedItems": hop}
+			default:
+				*route = append(*route, "i")
+				shape = append(shape, "decoy-contains-items")
+				return map[string]any{"contains": decoyRef, "minContains": json.Number("0"), "items": hop}
+			}
+		}
 		switch r.IntN(6) {
 		case 0:
 			shape = append(shape, "allOf")
@@ -237,6 +264,10 @@ func NewDynUniverse(r *rand.Rand) *DynUniverse {
 		if kinds[k] == "dyn" {
 			u.NDyn++
 		}
+	}
+	if decoy {
+		res[0]["$defs"].(map[string]any)["decoy"] = map[string]any{"$id": "http://h/decoy.json", "$dynamicAnchor": "node", "const": "TD"}
+		u.Markers = append(u.Markers, "TD")
 	}
 	// assemble
 	if remote {
